@@ -7,13 +7,16 @@ from fractions import Fraction
 
 import numpy as np
 
-from thermosteam.base import sparse as sp
+import sys
+import thermosteam.base  # noqa
+sp = sys.modules['thermosteam.base.sparse']
 
 MODULE = 'Sparse'
 NONE = 'none'
 REJECT = dict(nd=-1, b=False, e=[])
 
 UNIVERSES = {
+    'vb2': dict(names={'v': 'vec', 'b': 'lvec'}, nrows=2, ncols=2),
     'vwb2': dict(names={'v': 'vec', 'w': 'vec', 'b': 'lvec'}, nrows=2, ncols=2),
     'vbA2': dict(names={'v': 'vec', 'b': 'lvec', 'A': 'arr'}, nrows=2, ncols=2),
     'vwbA3': dict(names={'v': 'vec', 'w': 'vec', 'b': 'lvec', 'A': 'arr'}, nrows=2, ncols=3),
@@ -60,9 +63,33 @@ def tensor(arr):
     return dict(nd=a.ndim, b=bool(isb), e=[])
 
 
+def image(obj):
+    """Dense image of a sparse object built from what it stores (robust against stored indices outside the
+    size, which to_array() cannot represent; those show up in rep_of and are judged by RepOK)."""
+    def row(r):
+        if isinstance(r, sp.SparseLogicalVector):
+            a = np.zeros(r.size, dtype=bool)
+            for k in r.set:
+                if 0 <= k < r.size:
+                    a[k] = True
+            return a
+        a = np.zeros(r.size, dtype=float)
+        for k, v in r.dct.items():
+            if 0 <= k < r.size:
+                a[k] = v
+        return a
+    if isinstance(obj, sp.SparseArray):
+        rows = [row(r) for r in obj.rows]
+        if len({len(r) for r in rows}) > 1:
+            n = max(len(r) for r in rows)
+            rows = [np.concatenate([r, np.zeros(n - len(r), dtype=r.dtype)]) for r in rows]
+        return np.array(rows)
+    return row(obj)
+
+
 def dense(obj):
     if isinstance(obj, (sp.SparseVector, sp.SparseLogicalVector, sp.SparseArray)):
-        return obj.to_array()
+        return image(obj)
     return np.asarray(obj)
 
 
@@ -122,11 +149,11 @@ class World:
 
     def _ro(self, o):
         if isinstance(o, sp.SparseArray):
-            return all(r.read_only for r in o.rows) and bool(o.rows)
-        return bool(o.read_only)
+            return all(getattr(r, 'read_only', False) for r in o.rows) and bool(o.rows)
+        return bool(getattr(o, 'read_only', False))
 
     def project(self):
-        return dict(objs={n: tensor(o.to_array()) for n, o in self.objs.items()},
+        return dict(objs={n: tensor(image(o)) for n, o in self.objs.items()},
                     ro={n: self._ro(o) for n, o in self.objs.items()})
 
     # ---- operands ---------------------------------------------------------
@@ -169,7 +196,8 @@ class World:
 
     # ---- apply ------------------------------------------------------------------
     def apply(self, op, a):
-        pre = {n: o.to_array().copy() for n, o in self.objs.items()}
+        pre = {n: image(o) for n, o in self.objs.items()}
+        self._pre_ro = {n: self._ro(o) for n, o in self.objs.items()}
         res = None
         exc = NONE
         try:
@@ -237,7 +265,7 @@ class World:
             return {'neg': lambda: -x, 'abs': lambda: abs(x), 'invert': lambda: ~x, 'copy': lambda: x.copy(),
                     'to_array': lambda: x.to_array()}[f]()
         if op == 'red':
-            axis = None if a['axis'] == NONE else a['axis']
+            axis = {NONE: None, 'a0': 0, 'a1': 1}[a['axis']]
             return getattr(O[a['x']], a['f'])(axis=axis, keepdims=a['keep'])
         if op == 'getitem':
             return O[a['x']][self.index(a['ix'])]
@@ -245,6 +273,8 @@ class World:
 
     def _numpy(self, op, a, pre):
         """Same call on dense NumPy arrays; returns the result (pure) or the new image of the target."""
+        if op in ('iop', 'ilog', 'setitem', 'clear') and self._pre_ro[a['tgt']]:
+            raise ValueError('assignment destination is read-only')
         if op in ('iop', 'ilog'):
             t = pre[a['tgt']].copy()
             y = self.np_operand(a['o'], pre)
@@ -276,7 +306,7 @@ class World:
             return {'neg': lambda: -x, 'abs': lambda: abs(x), 'invert': lambda: ~x, 'copy': lambda: x.copy(),
                     'to_array': lambda: x}[a['f']]()
         if op == 'red':
-            axis = None if a['axis'] == NONE else a['axis']
+            axis = {NONE: None, 'a0': 0, 'a1': 1}[a['axis']]
             return getattr(pre[a['x']], a['f'])(axis=axis, keepdims=a['keep'])
         if op == 'getitem':
             return pre[a['x']][self.index(a['ix'])]
@@ -403,6 +433,6 @@ def random_op(universe, rng, values, mutating=None):
         return op, dict(x=x, f=rng.choice(['invert', 'copy', 'to_array'] if kinds[x] == 'lvec' else ['neg', 'abs', 'copy', 'to_array']))
     if op == 'red':
         return op, dict(x=rng.choice(names), f=rng.choice(['any', 'all', 'sum', 'mean', 'max', 'min']),
-                        axis=rng.choice([NONE, NONE, 0, 1]), keep=rng.random() < 0.5)
+                        axis=rng.choice([NONE, NONE, 'a0', 'a1']), keep=rng.random() < 0.5)
     x = rng.choice(names)
     return op, dict(x=x, ix=random_index(universe, kinds[x], rng))
